@@ -39,3 +39,47 @@ def literal_value(fold, w, content):
     """w is read by ninja as exactly the literal text `content`."""
     st, out = fold.run((NORMAL, 1), w)
     return AND(st[0] == NORMAL, st[1] == 1, out == content)
+
+
+class NinjaReadError(Exception):
+    pass
+
+
+def nj_expand_py(text, env):
+    """Evaluation of a ninja value text: `$$` `$ ` `$:` escapes, `${name}` / `$name` references (not rescanned)."""
+    out, i = [], 0
+    while i < len(text):
+        c = text[i]
+        if c == '\n':
+            raise NinjaReadError('line break inside value')
+        if c != '$':
+            out.append(c)
+            i += 1
+            continue
+        if i + 1 >= len(text):
+            raise NinjaReadError('trailing $')
+        d = text[i + 1]
+        if d in '$ :':
+            out.append(d)
+            i += 2
+        elif d == '{':
+            j = text.find('}', i + 2)
+            if j < 0:
+                raise NinjaReadError('unterminated ${')
+            name = text[i + 2:j]
+            if name not in env:
+                raise NinjaReadError('reference to %r' % name)
+            out.append(env[name])
+            i = j + 1
+        elif d.isalnum() or d in '_-':
+            j = i + 1
+            while j < len(text) and (text[j].isalnum() or text[j] in '_-'):
+                j += 1
+            name = text[i + 1:j]
+            if name not in env:
+                raise NinjaReadError('reference to %r' % name)
+            out.append(env[name])
+            i = j
+        else:
+            raise NinjaReadError('bad $-escape %r' % d)
+    return ''.join(out)
